@@ -303,4 +303,42 @@ theorem purge_spec (cfg : Cfg) (s : State) (hnf : NoFail s) (hi : Inv cfg.codec 
   refine And.intro ?_ trivial
   exact ⟨inv_cache_nil h1.inv, h1.nofail, h1.heap, h1.nextId, by intro p hp; simp at hp, h1.evs⟩
 
+/-! ### the bare persistence calls -/
+
+/-- `SaveSession(id, obj h)` keeps the invariant when the only cache entry under `id` (if any) is `h` itself,
+carrying that id; an exception at `id` is repaired. -/
+theorem saveRec_inv (cfg : Cfg) (x : Option ID) (s : State) (id : ID) (h : Nat) (hnf : NoFail s) (hi : InvX cfg.codec x s)
+    (hk : Minted s.nextId id) (hr : RefOK s.nextId (s.obj h).ref)
+    (honly : ∀ h', (id, h') ∈ s.cache → h' = h ∧ (s.obj h).id = id) :
+    (saveRec cfg s id (s.obj h)).2.1 = true ∧ NoFail (saveRec cfg s id (s.obj h)).1 ∧
+    InvX cfg.codec (if x = some id then none else x) (saveRec cfg s id (s.obj h)).1 := by
+  rw [saveRec_eq cfg id (s.obj h) hnf]
+  exact ⟨rfl, hnf.popF, (inv_save_obj x s id h hi hk hr honly).congr rfl rfl rfl rfl rfl⟩
+
+/-- `DeleteSession(id)` alone keeps the invariant when `id` is not cached
+(`cache.Delete` and the clean-up goroutine drop the cache entry first). -/
+theorem delRec_inv {c : Codec} (x : Option ID) (s : State) (id : ID) (hnf : NoFail s) (hi : InvX c x s)
+    (hnc : ∀ h, (id, h) ∉ s.cache) :
+    (delRec s id).2.1 = true ∧ NoFail (delRec s id).1 ∧ InvX c x (delRec s id).1 := by
+  rw [delRec_eq id hnf]
+  refine ⟨rfl, hnf.popF, ?_⟩
+  constructor
+  · exact hi.cnodup
+  · exact hi.valid
+  · exact hi.wf
+  · intro id' h' hm hx
+    obtain ⟨r, hl, he⟩ := hi.coh id' h' hm hx
+    have hne : id' ≠ id := by intro e; subst e; exact hnc h' hm
+    exact ⟨r, by show lookup id' (erase id s.store) = some r; rw [lookup_erase_ne _ hne]; exact hl, he⟩
+  · exact hi.ckeys
+  · exact hi.crefs
+  · exact hi.sok.del id
+  · exact hi.tkeys
+
+/-- `LoadSession(id)` changes nothing the invariant reads. -/
+theorem loadRec_inv {c : Codec} (x : Option ID) (s : State) (id : ID) (hnf : NoFail s) (hi : InvX c x s) :
+    NoFail (loadRec s id).1 ∧ InvX c x (loadRec s id).1 := by
+  obtain ⟨heq, hnf', _, _⟩ := loadRec_spec s id hnf
+  exact ⟨hnf', hi.eqv heq⟩
+
 end Sx
